@@ -18,42 +18,39 @@ EXTENDS Integers, Sequences, TLC, Json, IOUtils
 VARIABLES stage, parse, compile, execute, ast, bc
 
 Formats == {"json", "lisp", "yaml"}
-NoArt == [path |-> "", fmt |-> ""]
+\* names of the source file without its .fml extension: one plain, one with further dots (only the LAST extension is replaced)
+Bases == {"prog", "report.monthly"}
+\* an artifact: directory, file name without its last extension, last extension, and the format its content is in
+Art(dir, stem, ext, fmt) == [dir |-> dir, stem |-> stem, ext |-> ext, fmt |-> fmt, path |-> dir \o "/" \o stem \o "." \o ext]
+NoArt == [dir |-> "", stem |-> "", ext |-> "", fmt |-> "", path |-> ""]
 Other(f) == CASE f = "json" -> "lisp" [] f = "lisp" -> "yaml" [] OTHER -> "json"
 Init == stage = "start" /\ parse = <<>> /\ compile = <<>> /\ execute = <<>> /\ ast = NoArt /\ bc = NoArt
 
 \* where Parse leaves the AST: predicted path (relative to the scratch directory) and the format actually written
-ParseOut(in, out, fmt) ==
-  CASE out = "file"     -> "a/tree." \o fmt                    \* -o FILE with the format's extension
-    [] out = "fileneutral" -> "a/tree.out"                    \* -o FILE with an extension that names no format (needs --format)
-    [] out = "filewrong" -> "a/wrong." \o Other(fmt)           \* -o FILE whose extension names ANOTHER format (needs --format; compile needs --input-format)
-    [] out = "dir"      -> "d/" \o (IF in = "file" THEN "prog" ELSE "ast") \o "." \o fmt
-    [] out = "stdout"   -> "a/captured.txt"
+ParseOut(in, base, out, fmt) ==
+  CASE out = "file"     -> Art("a", "tree", fmt, fmt)                  \* -o FILE with the format's extension
+    [] out = "fileneutral" -> Art("a", "tree", "out", fmt)            \* -o FILE with an extension that names no format (needs --format)
+    [] out = "filewrong" -> Art("a", "wrong", Other(fmt), fmt)         \* -o FILE whose extension names ANOTHER format (needs --format; compile needs --input-format)
+    [] out = "dir"      -> Art("d", IF in = "file" THEN base ELSE "ast", fmt, fmt)   \* -o DIR: the input file's name with its last extension replaced
+    [] out = "stdout"   -> Art("a", "captured", "txt", fmt)
 DoParse == /\ stage = "start"
-           /\ \E in \in {"file", "stdin"}, out \in {"file", "fileneutral", "filewrong", "dir", "stdout"}, fmt \in Formats, explicit \in BOOLEAN :
+           /\ \E in \in {"file", "stdin"}, base \in Bases, out \in {"file", "fileneutral", "filewrong", "dir", "stdout"}, fmt \in Formats, explicit \in BOOLEAN :
                 /\ explicit \/ out = "file"                    \* otherwise the format is not determinable
-                /\ parse' = [in |-> in, out |-> out, fmt |-> fmt, explicit |-> explicit]
-                /\ ast' = [path |-> ParseOut(in, out, fmt), fmt |-> fmt]
+                /\ in = "stdin" => base = "prog"               \* the name plays no role when the source comes from stdin
+                /\ parse' = [in |-> in, src |-> base \o ".fml", out |-> out, fmt |-> fmt, explicit |-> explicit]
+                /\ ast' = ParseOut(in, base, out, fmt)
            /\ stage' = "parsed" /\ UNCHANGED <<compile, execute, bc>>
-\* extension of a path as the tools see it
-Ext(p) == CASE p = "a/tree.json" \/ p = "d/prog.json" \/ p = "d/ast.json" \/ p = "a/wrong.json" -> "json"
-            [] p = "a/tree.lisp" \/ p = "d/prog.lisp" \/ p = "d/ast.lisp" \/ p = "a/wrong.lisp" -> "lisp"
-            [] p = "a/tree.yaml" \/ p = "d/prog.yaml" \/ p = "d/ast.yaml" \/ p = "a/wrong.yaml" -> "yaml"
-            [] OTHER -> "none"
-Stem(p) == CASE p \in {"a/tree.json", "a/tree.lisp", "a/tree.yaml", "a/tree.out"} -> "tree"
-             [] p \in {"d/prog.json", "d/prog.lisp", "d/prog.yaml"} -> "prog"
-             [] p \in {"d/ast.json", "d/ast.lisp", "d/ast.yaml"} -> "ast"
-             [] p \in {"a/wrong.json", "a/wrong.lisp", "a/wrong.yaml"} -> "wrong"
-             [] OTHER -> "captured"
+\* extension of an artifact as the tools see it
+Ext(a) == IF a.ext \in Formats THEN a.ext ELSE "none"
 DoCompile == /\ stage = "parsed"
              /\ \E in \in {"file", "stdin"}, out \in {"file", "dir", "stdout"}, explicit \in BOOLEAN :
-                  /\ explicit \/ (in = "file" /\ Ext(ast.path) = ast.fmt)       \* inference is possible only when the extension names the format the file is in;
+                  /\ explicit \/ (in = "file" /\ Ext(ast) = ast.fmt)       \* inference is possible only when the extension names the format the file is in;
                                                                               \* an explicit --input-format wins over whatever the extension says
                   /\ compile' = [in |-> in, out |-> out, explicit |-> explicit, path |-> ast.path,
-                                 fmt |-> IF explicit THEN ast.fmt ELSE Ext(ast.path)]
-                  /\ bc' = [path |-> CASE out = "file" -> "b/code.bc"
-                                       [] out = "dir" -> "e/" \o (IF in = "file" THEN Stem(ast.path) ELSE "ast") \o ".bc"
-                                       [] out = "stdout" -> "b/captured.bin", fmt |-> "bc"]
+                                 fmt |-> IF explicit THEN ast.fmt ELSE Ext(ast)]
+                  /\ bc' = CASE out = "file" -> Art("b", "code", "bc", "bc")
+                              [] out = "dir" -> Art("e", IF in = "file" THEN ast.stem ELSE "ast", "bc", "bc")
+                              [] out = "stdout" -> Art("b", "captured", "bin", "bc")
              /\ stage' = "compiled" /\ UNCHANGED <<parse, execute, ast>>
 DoExecute == /\ stage = "compiled"
              /\ \E in \in {"file", "stdin"} : execute' = [in |-> in, path |-> bc.path]
